@@ -76,6 +76,56 @@ func (x *Exec) atReturn(st *State, fr *Frame, res []Value, v *ssa.Return) {
 		if base, _, _ := strings.Cut(h, "#"); wholeOK[h] || wholeOK[base] {
 			continue
 		}
+		// decompose store chains over the entry heap: only the stored-to objects can differ
+		{
+			t := cur
+			var objs []*Term
+			seenObj := map[*Term]bool{}
+			for t.Op == "store" {
+				if !seenObj[t.Args[1]] {
+					seenObj[t.Args[1]] = true
+					objs = append(objs, t.Args[1])
+				}
+				t = t.Args[0]
+			}
+			if t == pre && len(objs) > 0 && len(objs) <= 12 {
+				es := arrElem(srt)
+				var parts []*Term
+				for _, o := range objs {
+					if o.IsLit() && o.Val.Sign() <= 0 {
+						continue // memory allocated by this activation
+					}
+					var part *Term
+					if strings.HasPrefix(es, "(Array ") {
+						i := b.Var("i!f", SInt)
+						var allowed []*Term
+						for _, l := range locs {
+							if l.Heap != h {
+								continue
+							}
+							if l.Lo == nil {
+								allowed = append(allowed, b.Eq(o, l.Obj))
+							} else {
+								allowed = append(allowed, b.And(b.Eq(o, l.Obj), b.Le(l.Lo, i), b.Lt(i, l.Hi)))
+							}
+						}
+						same := b.Eq(b.Select(b.Select(cur, o), i), b.Select(b.Select(pre, o), i))
+						part = b.Forall([]*Term{i}, b.Or(append(allowed, same)...))
+					} else {
+						var allowed []*Term
+						for _, l := range locs {
+							if l.Heap == h {
+								allowed = append(allowed, b.Eq(o, l.Obj))
+							}
+						}
+						part = b.Or(append(allowed, b.Eq(b.Select(cur, o), b.Select(pre, o)))...)
+					}
+					parts = append(parts, b.Implies(b.Lt(b.Int(0), o), part))
+				}
+				x.addObl(st, "frame:"+h, "", nil, b.And(parts...), "only declared locations of "+h+" change")
+				continue
+			}
+		}
 		r := b.Var("r!f", SInt)
 		es := arrElem(srt)
 		var goal *Term
